@@ -1,2 +1,185 @@
-(* placeholder while the pipeline is brought up *)
-From MptV Require Import C18.LinepartModel C18.LinepartSpec.
+(* C18 — Visible line parts partition the data exactly.
+   Only the property theorems (each closed by [exact] of a lemma proved in
+   LinepartCode/Local/Global/Round.v), non-vacuity examples and Print Assumptions.
+
+   Reading guide.  Values are exact rationals [Q] (every double is one).  [linepart_linear r from len]
+   transcribes mpt_linepart_linear on the [len] values at the head of [from] ([r = None]: no range);
+   [run r data] is the loop "pos += part.raw while pos < n" of linepart::array::apply
+   (mpt++/linepart.cpp) and yields [Done parts], [OutOfFuel] or [RFault] (a read outside the data).
+   Part k starts at pos_k = raw_0 + .. + raw_(k-1); it consumes [pos_k, pos_k + raw_k) and draws
+   [pos_k, pos_k + usr_k); [draw_count 0 parts i] = number of parts that draw point i;
+   [zn data i] = point i; [inr r v] = v lies in the range (always, if there is none);
+   [interior_out r data i] = point i is outside and so are its neighbours (as far as they exist).
+   All statements hold for EVERY value sequence, of any length, and every range
+   (also min > max, min = max); the 65535-per-part clamp and the mod 2^16 stores are in the model. *)
+From Coq Require Import ZArith QArith Qround Qabs List Lia.
+From MptV Require Import C18.LinepartModel C18.LinepartSpec C18.LinepartCode C18.LinepartLocal
+  C18.LinepartGlobal C18.LinepartRound C18.LinepartMerge.
+Import ListNotations.
+Local Open Scope Z_scope.
+
+(* progress: with at least one value available a call consumes at least one and at most
+   min(len, 65535) values, and never reads outside the data *)
+Theorem C18_progress :
+  forall r from len, 1 <= len <= zlen from ->
+    exists p, linepart_linear r from len = Ok p /\ 1 <= raw p <= len /\ raw p <= 65535.
+Proof. exact progress_lemma. Qed.
+
+(* the driver loop ends (the fuel |data| suffices), never faults, and the raw counts sum to n:
+   every input point is consumed exactly once (parts cover consecutive, disjoint stretches) *)
+Theorem C18_consumes_each_point_once :
+  forall r data,
+    exists ps, run r data = Done ps /\ sum_raw ps = zlen data /\ Forall (fun p => 1 <= raw p <= 65535) ps.
+Proof. exact consumes_lemma. Qed.
+
+(* every in-range point lies in the drawn portion of exactly one part *)
+Theorem C18_in_range_drawn_once :
+  forall r data ps, run r data = Done ps ->
+    forall i, 0 <= i < zlen data -> inr r (zn data i) -> draw_count 0 ps i = 1.
+Proof. intros r data ps H i Hi. exact (proj1 (run_points r data ps H i Hi)). Qed.
+
+(* no out-of-range interior point is reported as drawn *)
+Theorem C18_out_of_range_interior_not_drawn :
+  forall r data ps, run r data = Done ps ->
+    forall i, 0 <= i < zlen data -> interior_out r data i -> draw_count 0 ps i = 0.
+Proof. intros r data ps H i Hi. exact (proj2 (run_points r data ps H i Hi)). Qed.
+
+(* every part is as specified at its position ([part_ok], LinepartSpec.v): in particular a drawn
+   point is in range, or it is the first drawn point and the second is in range, or it is the
+   last drawn point and the one before is in range *)
+Theorem C18_parts_as_specified :
+  forall r data ps, run r data = Done ps -> parts_ok r data ps /\ sum_raw ps = zlen data.
+Proof. exact run_parts_ok. Qed.
+
+(* cut/trim: for a part whose first (last) drawn point o is out of range, the neighbour v is in range,
+   x = cross r o v is the exact fraction of the segment, measured from o, where the line meets the
+   boundary (o + x (v - o) = min or max, 0 < x <= 1), the stored code is floor(65536 x) clipped to
+   65535, and it decodes to within 2^-16 of x; otherwise the code is 0 ([edge_ok], LinepartGlobal.v) *)
+Theorem C18_cut_trim_precision :
+  forall r data ps, run (Some r) data = Done ps ->
+    forall pos p, In (pos, p) (placed 0 ps) ->
+      let from := zskip pos data in
+      (if (0 <? usr p) && negb (inb (Some r) (zn from 0))
+       then edge_ok r (zn from 0) (zn from 1) (cut p) else cut p = 0) /\
+      (if (0 <? usr p) && negb (inb (Some r) (zn from (usr p - 1)))
+       then edge_ok r (zn from (usr p - 1)) (zn from (usr p - 2)) (trim p) else trim p = 0).
+Proof. exact cut_trim_lemma. Qed.
+
+(* the encoder/decoder pair on its own *)
+Theorem C18_code_is_clipped_floor :
+  forall x,
+    ((0 <= x <= 1)%Q -> linepart_code x = Z.min 65535 (Qfloor (x * (65536 # 1))) /\
+                        0 <= code_spec x <= 65535 /\
+                        (Qabs (linepart_real (code_spec x) - x) <= 1 # 65536)%Q) /\
+    (~ (0 <= x <= 1)%Q -> linepart_code x = -2).
+Proof. exact code_lemma. Qed.
+
+(* joining: an accepted join adds up both counts without wrapping, keeps the cut of the first and
+   the trim of the second part, and draws exactly the points the two parts drew *)
+Theorem C18_join_preserves_totals :
+  forall a b c, 0 <= raw a -> 0 <= usr a -> 0 <= raw b -> 0 <= usr b ->
+    linepart_join a b = Some c ->
+    raw c = raw a + raw b /\ usr c = usr a + usr b /\ cut c = cut a /\ trim c = trim b /\
+    raw c <= 65535 /\ usr c <= 65535 /\ trim a = 0 /\ cut b = 0 /\ usr a = raw a.
+Proof. exact join_spec. Qed.
+
+Theorem C18_join_draws_union :
+  forall a b c pos i, 0 <= raw a -> 0 <= usr a -> 0 <= raw b -> 0 <= usr b ->
+    linepart_join a b = Some c ->
+    drawn_in pos c i = (drawn_in pos a i || drawn_in (pos + raw a) b i)%bool.
+Proof. exact join_drawn. Qed.
+
+(* the second driver (polyline::set): linepart::array::set(n) presets chunks of 65533 points,
+   linepart::array::apply() re-splits each chunk and joins neighbours where mpt_linepart_join accepts.
+   It ends (fuel |data| + number of chunks suffices), never reads outside the data, and the result
+   still covers exactly n points; joining does not change which points are drawn, so the per-point
+   statements hold for the joined list as well. *)
+Theorem C18_set_apply_covers_all :
+  forall r data, exists ps, run_merged r data = Done ps /\ sum_raw ps = zlen data.
+Proof. exact run_merged_ok. Qed.
+
+Theorem C18_set_apply_points :
+  forall r data ps, run_merged r data = Done ps ->
+    sum_raw ps = zlen data /\
+    forall i, 0 <= i < zlen data ->
+      (inr r (zn data i) -> draw_count 0 ps i = 1) /\ (interior_out r data i -> draw_count 0 ps i = 0).
+Proof. exact run_merged_points. Qed.
+
+(* exact arithmetic vs binary64 (the comparison rule of the correspondence check): for range bounds
+   and points with <= 16 fractional bits and magnitude < 2^16, ANY y within relative error 2^-53 of
+   the exact crossing fraction x that equals x whenever x is a multiple of 2^-16 — the two stated
+   properties of a correctly rounded binary64 division, hypotheses here — gets the same code *)
+Theorem C18_code_agrees_small_dyadic :
+  forall r o v y,
+    small_dyadic (rmin r) -> small_dyadic (rmax r) -> small_dyadic o -> small_dyadic v ->
+    within r v = true -> within r o = false ->
+    let x := cross r o v in
+    (Qabs (y - x) <= x * (1 # two53))%Q ->
+    (forall k, 0 <= k <= 65536 -> (x == k # 65536)%Q -> (y == x)%Q) ->
+    wrap16 (linepart_code y) = code_spec x /\ wrap16 (linepart_code y) = edge_code r o v.
+Proof. exact code_agrees_small_dyadic. Qed.
+
+(* ---- non-vacuity ---- *)
+Definition r13 : range := mkrange (1 # 1) (3 # 1).
+Definition d7 : list Q := [0 # 1; 2 # 1; 5 # 1; 6 # 1; 5 # 2; 3 # 1; 4 # 1]%Q.
+
+(* below, inside, above, above, inside, at-max, above *)
+Example C18_run_example :
+  run (Some r13) d7 = Done [mkpart 3 3 32768 43690; mkpart 4 4 56173 65535].
+Proof. vm_compute. reflexivity. Qed.
+
+Example C18_classes_example :
+  spec_classes (Some r13) d7 = [Edge; Once; Edge; Edge; Once; Once; Edge].
+Proof. vm_compute. reflexivity. Qed.
+
+Example C18_counts_example :
+  map (draw_count 0 [mkpart 3 3 32768 43690; mkpart 4 4 56173 65535]) [0; 1; 2; 3; 4; 5; 6]
+  = [1; 1; 1; 1; 1; 1; 1].
+Proof. vm_compute. reflexivity. Qed.
+
+Example C18_interior_example :
+  interior_out (Some r13) [5 # 1; 6 # 1; 7 # 1; 2 # 1]%Q 0 /\
+  run (Some r13) [5 # 1; 6 # 1; 7 # 1; 2 # 1]%Q = Done [mkpart 2 0 0 0; mkpart 2 2 52428 0].
+Proof.
+  split; [|vm_compute; reflexivity].
+  unfold interior_out, inr. vm_compute. repeat split; intros; discriminate.
+Qed.
+
+(* crossing of the segment 0 -> 2 with min = 1 at one half; 6 -> 5/2 meets max = 3 at 6/7 *)
+Example C18_cross_example :
+  (cross r13 (0 # 1) (2 # 1) == 1 # 2)%Q /\ code_spec (1 # 2) = 32768 /\
+  (cross r13 (6 # 1) (5 # 2) == 6 # 7)%Q /\ code_spec (6 # 7) = 56173.
+Proof. vm_compute. repeat split; reflexivity. Qed.
+
+Example C18_join_example :
+  linepart_join (mkpart 3 3 7 0) (mkpart 4 2 0 9) = Some (mkpart 7 5 7 9) /\
+  linepart_join (mkpart 65533 65533 0 0) (mkpart 3 3 0 0) = None /\
+  linepart_join (mkpart 3 4 0 5) (mkpart 4 2 0 9) = None.
+Proof. vm_compute. repeat split; reflexivity. Qed.
+
+Example C18_merged_example :
+  run_merged (Some r13) d7 = Done [mkpart 3 3 32768 43690; mkpart 4 4 56173 65535] /\
+  run_merged None d7 = Done [mkpart 7 7 0 0].
+Proof. vm_compute. split; reflexivity. Qed.
+
+Example C18_small_dyadic_example : small_dyadic (5 # 2) /\ small_dyadic (rmax r13).
+Proof. split; [exists 163840|exists 196608]; split; try reflexivity; lia. Qed.
+
+(* a representable quotient and a non-representable one meet the rounding hypotheses *)
+Example C18_rounding_hypotheses_example :
+  let x := cross r13 (0 # 1) (2 # 1) in
+  (Qabs (x - x) <= x * (1 # two53))%Q /\ (forall k, 0 <= k <= 65536 -> (x == k # 65536)%Q -> (x == x)%Q).
+Proof. split; [vm_compute; discriminate|reflexivity]. Qed.
+
+Print Assumptions C18_progress.
+Print Assumptions C18_consumes_each_point_once.
+Print Assumptions C18_in_range_drawn_once.
+Print Assumptions C18_out_of_range_interior_not_drawn.
+Print Assumptions C18_parts_as_specified.
+Print Assumptions C18_cut_trim_precision.
+Print Assumptions C18_code_is_clipped_floor.
+Print Assumptions C18_join_preserves_totals.
+Print Assumptions C18_join_draws_union.
+Print Assumptions C18_set_apply_covers_all.
+Print Assumptions C18_set_apply_points.
+Print Assumptions C18_code_agrees_small_dyadic.
